@@ -31,6 +31,7 @@ func checkC02(c *Ctx, r *rep.Report) {
 	ruleGenerateKey(r, p, rl)
 	ruleUsesOnly(r, p, "H-message-only-hashed", "signCore", paths, "the message", isLeaf("P1"), map[string]bool{"hash.Write": true, "hash.Sum": true}, throughOps)
 	rulePurity(c, r, "sign")
+	scalarLayer(c, r)
 }
 
 func checkC03(c *Ctx, r *rep.Report) {
@@ -51,6 +52,7 @@ func checkC03(c *Ctx, r *rep.Report) {
 	ruleScMinExact(r, p, rl)
 	ruleSmallOrder(r, p, rl)
 	ruleBatchAll(c, r, p, rl, fl)
+	scalarLayer(c, r)
 }
 
 func checkC09(c *Ctx, r *rep.Report) {
